@@ -9,7 +9,9 @@ package main
 
 import (
 	"fmt"
+	"math/big"
 	"slices"
+	"strings"
 
 	"github.com/bronlabs/bron-crypto/pkg/base/algebra"
 	"github.com/bronlabs/bron-crypto/pkg/base/curves"
@@ -26,10 +28,18 @@ func c15BlsAll(c *Ctx) {
 	// random x is outside with overwhelming probability; the Lean side re-checks non-membership.
 	var badG1 []*bls12381.PointG1
 	for len(badG1) < 2 {
+		// built on the implementation layer: G1.FromAffineX itself refuses points outside the subgroup
 		x := bls12381.NewG1BaseField().FromUint64(uint64(1 + r.IntN(1<<30)))
-		p, err := cBLSG1.FromAffineX(x, r.IntN(2) == 0)
-		if err == nil && !p.IsTorsionFree() {
-			badG1 = append(badG1, p)
+		var p bls12381.PointG1
+		if ok := p.V.SetFromAffineX(&x.V); ok != 1 {
+			continue
+		}
+		q := &p
+		if r.IntN(2) == 0 {
+			q = p.Neg()
+		}
+		if !q.IsTorsionFree() {
+			badG1 = append(badG1, q)
 		}
 	}
 	var badG2 []*bls12381.PointG2
@@ -79,12 +89,24 @@ func c15Bls[
 	keyGroup, sigGroup := scheme.KeySubGroup(), scheme.SignatureSubGroup()
 	sf := algebra.StructureMustBeAs[algebra.PrimeField[S]](keyGroup.ScalarStructure())
 	n := fieldOrder(sf)
-	dst, err := scheme.CipherSuite().GetDst(mode, variant)
-	if err != nil {
-		c.Violation(fmt.Sprintf("bls GetDst: %v", err))
-		return
+	// Domain separation tags: the published ciphersuite identifiers (draft-irtf-cfrg-bls-signature §4.2) are
+	// written out here, independently of the library's table; H(m) and H_pop(pk) in every line are computed
+	// with these.  The tags the library reports are compared with the Lean-side table (`bls.dst`).
+	grp := map[string]string{"bls12381g1": "G1", "bls12381g2": "G2"}[sc]
+	pubDst := func(kind string) string {
+		return "BLS_" + map[string]string{"b": "SIG", "a": "SIG", "p": "SIG", "pop": "POP"}[kind] + "_BLS12381" + grp +
+			"_XMD:SHA-256_SSWU_RO_" + map[string]string{"b": "NUL", "a": "AUG", "p": "POP", "pop": "POP"}[kind] + "_"
 	}
-	popDst := scheme.CipherSuite().GetPopDst(variant)
+	dst, popDst := pubDst(mtag), pubDst("pop")
+	{
+		libDst, err := scheme.CipherSuite().GetDst(mode, variant)
+		if err != nil {
+			c.Violation(fmt.Sprintf("bls GetDst: %v", err))
+			return
+		}
+		c.Emit(fmt.Sprintf("bls.dst %s %s", sc, mtag), hexBytes([]byte(libDst)))
+		c.Emit(fmt.Sprintf("bls.dst %s pop", sc), hexBytes([]byte(scheme.CipherSuite().GetPopDst(variant))))
+	}
 	hashTo := func(d string, m []byte) SG {
 		h, err := sigGroup.HashWithDst(d, m)
 		if err != nil {
@@ -240,6 +262,60 @@ func c15Bls[
 		pop := sg.Pop()
 		try("honest", skS, pkv, sg.Value(), pop, msg, "accept")
 		other := newKey(scalarFromBig(sf, r.BigBelow(n)))
+
+		// ---- adversarially constructed signatures / proofs (no call to Signer.Sign): σ = x•H_tag(bytes)
+		{
+			mkPop := func(v SG) *popT {
+				p, err := bls.NewProofOfPossession[SG, SGFE, PK, PKFE, E, S](v)
+				if err != nil {
+					return pop
+				}
+				return p
+			}
+			augOf := func(pk PK, m []byte) []byte {
+				if mode == bls.MessageAugmentation {
+					return slices.Concat(pk.Bytes(), m)
+				}
+				return m
+			}
+			msg2 := append(slices.Clone(msg), 0x5a)
+			otherDst := pubDst(map[string]string{"b": "p", "a": "b", "p": "a"}[mtag])
+			ownSig := hashTo(dst, augOf(pkv, msg)).ScalarMul(skv)
+			ownPop := hashTo(popDst, pkv.Bytes()).ScalarMul(skv)
+			type cse struct {
+				tag    string
+				sig    SG
+				pop    *popT
+				expect string
+			}
+			all := []cse{
+				{"own-sign", ownSig, mkPop(ownPop), "accept"},                                                      // the harness signs itself
+				{"own-other-msg", hashTo(dst, augOf(pkv, msg2)).ScalarMul(skv), pop, "reject"},                      // valid for another message
+				{"own-wrong-dst", hashTo(otherDst, augOf(pkv, msg)).ScalarMul(skv), pop, "reject"},                  // another scheme's tag
+				{"own-pop-dst", hashTo(popDst, augOf(pkv, msg)).ScalarMul(skv), pop, "reject"},                      // the proof-of-possession tag
+				{"own-other-key", hashTo(dst, augOf(pkv, msg)).ScalarMul(other.Value()), pop, "reject"},             // signed with a foreign secret
+				{"own-scaled", ownSig.Add(ownSig), pop, "reject"},                                                   // 2σ
+			}
+			if mode == bls.MessageAugmentation {
+				all = append(all,
+					cse{"own-no-aug", hashTo(dst, msg).ScalarMul(skv), pop, "reject"},                                      // pk prefix missing
+					cse{"own-aug-other-pk", hashTo(dst, slices.Concat(other.PublicKey().Value().Bytes(), msg)).ScalarMul(skv), pop, "reject"})
+			}
+			if mode == bls.POP {
+				all = append(all,
+					cse{"own-pop-sigdst", ownSig, mkPop(hashTo(dst, pkv.Bytes()).ScalarMul(skv)), "reject"},                // proof made with the signature tag
+					cse{"own-pop-is-sig", ownSig, mkPop(ownSig), "reject"},                                                 // the signature presented as proof
+					cse{"own-pop-other-pk", ownSig, mkPop(hashTo(popDst, other.PublicKey().Value().Bytes()).ScalarMul(skv)), "reject"},
+					cse{"own-pop-other-key", ownSig, mkPop(hashTo(popDst, pkv.Bytes()).ScalarMul(other.Value())), "reject"})
+			}
+			for i, cs := range all {
+				// quick: the self-signed one and a rotating third of the rest; thorough: all
+				if !c.Thorough() && i != 0 && (i+rot+int(c.Seed))%3 != 0 {
+					continue
+				}
+				try(cs.tag, skS, pkv, cs.sig, cs.pop, msg, cs.expect)
+			}
+		}
 		if !c.Thorough() {
 			// quick: honest + three alterations rotating with the seed (the complete set is run in thorough)
 			switch (rot + int(c.Seed)) % 3 {
@@ -331,7 +407,7 @@ func c15Bls[
 			tryAgg := func(tag string, agg SG, skL []string, pkL []PK, mL [][]byte, popL []*popT, expect string) {
 				// quick: the honest aggregate and a rotating quarter of the tamperings (all of them in thorough)
 				tcount++
-				if !c.Thorough() && tag != "honest" && tag != "foreign-pop" && (tcount+rot+int(c.Seed))%4 != 0 {
+				if !c.Thorough() && tag != "honest" && tag != "foreign-pop" && !strings.HasPrefix(tag, "adv-") && (tcount+rot+int(c.Seed))%4 != 0 {
 					return
 				}
 				res := safely(func() string {
@@ -433,6 +509,105 @@ func c15Bls[
 				tryAgg("foreign-pop", agg.Value(), skL, pkL, ms, fp, "reject")
 				if k > 1 {
 					tryAgg("missing-pop", agg.Value(), skL, pkL, ms, pops[:k-1], "reject")
+				}
+			}
+		}
+	}
+	// ---- adversarially constructed aggregates (harness-side signing σᵢ = skᵢ•H(mᵢ); k fixed to 2 signers)
+	{
+		k := 2
+		_ = k
+		advVerify := func(tag string, agg SG, skL []S, mL [][]byte, popL []*popT, expect string) {
+			pkL := make([]PK, len(skL))
+			skS := make([]string, len(skL))
+			for i, x := range skL {
+				pkL[i] = keyGroup.Generator().ScalarMul(x)
+				skS[i] = scalarHex(x)
+			}
+			res := safely(func() string {
+				var vf *bls.Verifier[PK, PKFE, SG, SGFE, E, S]
+				var err error
+				if mode == bls.POP {
+					vf, err = scheme.Verifier(bls.VerifyWithProofsOfPossession[PK](popL...))
+				} else {
+					vf, err = scheme.Verifier()
+				}
+				if err != nil {
+					return "reject"
+				}
+				keys := make([]*pubKey, len(pkL))
+				for i, p := range pkL {
+					keys[i] = mkPk(p)
+				}
+				s2, err := bls.NewSignature[SG, SGFE, PK, PKFE, E, S](agg, nil)
+				if err != nil {
+					return "reject"
+				}
+				return c15Verdict(vf.AggregateVerify(s2, keys, mL))
+			})
+			pkS, hS, hpS, popS := make([]string, len(pkL)), make([]string, len(pkL)), []string{}, []string{}
+			for i, p := range pkL {
+				pkS[i] = pkStr(p)
+				hS[i] = sgStr(hm(p, mL[i]))
+			}
+			if mode == bls.POP {
+				for i, p := range popL {
+					popS = append(popS, sgStr(p.Value()))
+					if i < len(pkL) {
+						hpS = append(hpS, sgStr(hashTo(popDst, pkL[i].Bytes())))
+					}
+				}
+			}
+			lhs := fmt.Sprintf("bls.aggverify %s %s %s %s %s %s %s %s %s adv-%s", kc, sc, mtag, joinComma(skS), joinComma(pkS), joinComma(hS), sgStr(agg), joinComma(hpS), joinComma(popS), tag)
+			c.Emit(lhs, res)
+			c.Count("bls.aggverify.adv-" + tag + "." + res)
+			if res != expect {
+				c.Violation(fmt.Sprintf("bls %s adv-%s: expected %s, library says %s: %s", cfg, tag, expect, res, lhs))
+			}
+		}
+		ownPop := func(x S) *popT {
+			pk := keyGroup.Generator().ScalarMul(x)
+			p, err := bls.NewProofOfPossession[SG, SGFE, PK, PKFE, E, S](hashTo(popDst, pk.Bytes()).ScalarMul(x))
+			if err != nil {
+				panic(err)
+			}
+			return p
+		}
+		ownSig := func(x S, m []byte) SG { return hm(keyGroup.Generator().ScalarMul(x), m).ScalarMul(x) }
+		nz := func() S {
+			return scalarFromBig(sf, new(big.Int).Add(r.BigBelow(new(big.Int).Sub(n, big.NewInt(1))), big.NewInt(1)))
+		}
+		a, x := nz(), nz()
+		m1, m2 := randMsg(), randMsg()
+		sel := (rot + int(c.Seed)) % 2
+		// (a) the same signer listed twice: honest aggregate of two of its signatures
+		if c.Thorough() || sel == 0 {
+			// distinct messages: valid in every mode
+			advVerify("dup-signer", ownSig(a, m1).Add(ownSig(a, m2)), []S{a, a}, [][]byte{m1, m2}, []*popT{ownPop(a), ownPop(a)}, "accept")
+			// the same message twice: refused by the basic scheme (messages must be distinct), valid otherwise
+			exp := "accept"
+			if mode == bls.Basic {
+				exp = "reject"
+			}
+			advVerify("dup-signer-msg", ownSig(a, m1).Add(ownSig(a, m1)), []S{a, a}, [][]byte{m1, m1}, []*popT{ownPop(a), ownPop(a)}, exp)
+			// ... but a single contribution for the duplicated entry is a missing contributor
+			advVerify("dup-signer-single", ownSig(a, m1), []S{a, a}, [][]byte{m1, m1}, []*popT{ownPop(a), ownPop(a)}, "reject")
+		}
+		// (b) rogue key: pk₂ = x•g − pk₁ (discrete log x − a, unknown to a real attacker) and σ = x•H(m), which
+		// satisfies e(pk₁+pk₂, H(m)) = e(g, σ).  Every mode must refuse it: basic by message distinctness,
+		// augmentation because H(pk₁‖m) ≠ H(pk₂‖m), proof of possession because no valid proof for pk₂
+		// can be presented (the attacker offers x•H_pop(pk₂) and pk₁'s proof).
+		if c.Thorough() || sel == 1 {
+			b := x.Sub(a)
+			if !b.IsZero() {
+				pk2 := keyGroup.Generator().ScalarMul(b)
+				rogue := hashTo(dst, m1).ScalarMul(x)
+				fake, err := bls.NewProofOfPossession[SG, SGFE, PK, PKFE, E, S](hashTo(popDst, pk2.Bytes()).ScalarMul(x))
+				if err == nil {
+					advVerify("rogue-key", rogue, []S{a, b}, [][]byte{m1, m1}, []*popT{ownPop(a), fake}, "reject")
+					if mode == bls.POP {
+						advVerify("rogue-key-pop1", rogue, []S{a, b}, [][]byte{m1, m1}, []*popT{ownPop(a), ownPop(a)}, "reject")
+					}
 				}
 			}
 		}
